@@ -614,6 +614,25 @@ pub fn c04(rec: &mut Rec, rng: &mut Rng, thorough: bool) {
             }
         }
     }
+    // the default limit (a connection on which set_payload_max_size is never called): 0.05 MiB = 51200
+    for n in [51199u64, 51200, 51201, 60000] {
+        rec.case("payload-limit-default");
+        rec.nontrivial();
+        let mut d = ConnDriver::new_default(rec);
+        let head = format!("PUT /x HTTP/1.1\r\nContent-Length: {}\r\n\r\n", n).into_bytes();
+        let mut last = String::new();
+        for ch in gen::split_at_cuts(&head, &gen::cuts(rng, &head, 3)) {
+            for r in d.recv(rec, &ch, 0) {
+                last = r;
+            }
+        }
+        let want_err = n > 51200;
+        let expect = format!("parse(SizeLimitExceeded(51200,{}))", n);
+        if want_err != (last == expect) || (!want_err && last != "ok") {
+            rec.oracle_fail("C04", &format!("default limit, n={}: the read completing the header block returned {}", n, last), &d.log);
+        }
+        d.popall(rec);
+    }
     // line length: rejected iff longer than 1024 including CRLF, wherever the line falls
     let lens: Vec<usize> = if thorough { (1000..=1100).collect() } else { vec![1000, 1015, 1020, 1021, 1022, 1023, 1024, 1025, 1026, 1027, 1030, 1100] };
     let n_off = if thorough { 48 } else { 12 };
